@@ -138,7 +138,7 @@ def check(rep, an, tier):
                 rep.check("R-FORWARD", f"{p} → range_of_solutions({p}=)", v is not None and p in v.flat().data, where=ev.loc,
                           construct=f"range_of_solutions(… {p}= …) in {ev.fn.name}", entry=ent, config=res.config)
         R.rule_purity(rep, res, ent)
-        R.rule_effect_free(rep, res, ent)
+        R.rule_effect_free(rep, res, ent, reg=_reg(an))
         F.qty(rep, res, ent, allow=allow, subs=("mismatch", "literal"))
     rep.require("R-QTY", 20)
     rep.require("R-DISPATCH", 4)
@@ -181,3 +181,8 @@ def permutation_restore(rep, res):
                       construct=norm_text(n)[:100], entry="range_of_solutions", config=res.config,
                       msg="the columns [fixed source | remaining sources] are gathered with the 'move to front' permutation itself; "
                           "for a fixed source index ≥ 2 the columns end up scrambled and the spaced solutions do not reproduce the target")
+
+
+def _reg(an):
+    from .C14 import registration_writes
+    return registration_writes(an)
